@@ -27,6 +27,8 @@ type c14Plan struct {
 	RespParts   []int  `json:"resp_parts"`
 	RespPauseMs []int  `json:"resp_pause_ms"` // pause before each part (after the head)
 	Ending      string `json:"ending"`        // success | sse | upgrade | target-reset-before-head | target-reset-mid-body | client-abort-upload
+	Status      int    `json:"status,omitempty"`  // the target's final status (0 = 200)
+	Interim     int    `json:"interim,omitempty"` // an interim response the target sends first (100, 102, 103; 0 = none)
 }
 
 func c14Gen(t *rapid.T) c14Plan {
@@ -69,6 +71,12 @@ func c14Gen(t *rapid.T) c14Plan {
 		p.MaxResp = lim(respTotal, "max-resp")
 	}
 	p.Ending = rapid.SampledFrom([]string{"success", "success", "success", "sse", "upgrade", "target-reset-before-head", "target-reset-mid-body", "client-abort-upload"}).Draw(t, "ending")
+	if rapid.IntRange(0, 2).Draw(t, "status?") == 0 {
+		p.Status = rapid.SampledFrom([]int{201, 203, 404, 422, 500, 503}).Draw(t, "status")
+	}
+	if rapid.IntRange(0, 3).Draw(t, "interim?") == 0 {
+		p.Interim = rapid.SampledFrom([]int{100, 102, 103}).Draw(t, "interim")
+	}
 	return p
 }
 
@@ -162,11 +170,19 @@ func c14Run(t *testing.T, p c14Plan) (res vfResult) {
 		}
 		var script []vfRawStep
 		respDur := time.Duration(0)
+		wantStatus := 200
+		if p.Status != 0 {
+			wantStatus = p.Status
+		}
 		switch p.Ending {
 		case "target-reset-before-head":
 			script = []vfRawStep{{Kind: "reset"}}
 		default:
-			script = append(script, vfRawStep{Kind: "bytes", Data: fmt.Sprintf("HTTP/1.1 200 OK\r\nContent-Type: %s\r\nContent-Length: %d\r\nX-Vf-Target: raw\r\n\r\n", ct, respTotal)})
+			if p.Interim > 0 {
+				script = append(script, vfRawStep{Kind: "bytes", Data: fmt.Sprintf("HTTP/1.1 %d %s\r\n\r\n", p.Interim, http.StatusText(p.Interim))}, vfRawStep{Kind: "delay", DelayMs: 2})
+				respDur += 2 * time.Millisecond
+			}
+			script = append(script, vfRawStep{Kind: "bytes", Data: fmt.Sprintf("HTTP/1.1 %d %s\r\nContent-Type: %s\r\nContent-Length: %d\r\nX-Vf-Target: raw\r\n\r\n", wantStatus, http.StatusText(wantStatus), ct, respTotal)})
 			o := 0
 			for i, c := range p.RespParts {
 				if p.RespPauseMs[i] > 0 {
@@ -280,13 +296,23 @@ func c14Run(t *testing.T, p c14Plan) (res vfResult) {
 				}
 				res.label("500")
 			default:
-				if !resp.complete() || resp.Resp.StatusCode != 200 || !bytes.Equal(resp.Body, rbody) {
-					res.failf("response-body", "client got status %v, %d body bytes (err %v / %v), target sent 200 with %d (equal=%v); %s",
-						c13Status(resp), len(resp.Body), resp.HeadErr, resp.BodyErr, len(rbody), bytes.Equal(resp.Body, rbody), desc)
+				if !resp.complete() || resp.Resp.StatusCode != wantStatus || !bytes.Equal(resp.Body, rbody) {
+					res.failf("response-body", "client got status %v, %d body bytes (err %v / %v), target sent %d with %d (equal=%v); %s",
+						c13Status(resp), len(resp.Body), resp.HeadErr, resp.BodyErr, wantStatus, len(rbody), bytes.Equal(resp.Body, rbody), desc)
 					return
 				}
-				if p.BufResp && p.Ending != "sse" && resp.FirstByte < targetDone {
-					res.failf("response-not-buffered", "response buffering: client saw its first byte at %v, the target finished at %v; %s", resp.FirstByte, targetDone, desc)
+				if p.Interim > 0 {
+					res.label(fmt.Sprintf("interim-%d-before-final", p.Interim))
+				}
+				if wantStatus != 200 {
+					res.label("final-status-not-200")
+				}
+				first := resp.FirstByte
+				if p.Interim > 0 {
+					first = resp.HeadAt // an interim response passes through at once; the final one is what is buffered
+				}
+				if p.BufResp && p.Ending != "sse" && first < targetDone {
+					res.failf("response-not-buffered", "response buffering: client saw the first byte of the final response at %v, the target finished at %v; %s", first, targetDone, desc)
 					return
 				}
 				if p.Ending == "sse" && respDur > 0 && len(p.RespParts) > 1 && p.RespPauseMs[0] == 0 && !(resp.FirstByte < targetDone) {
